@@ -103,7 +103,45 @@ def build(inp):
             dm = ops.sort(dm, by=dm[st['by']])
         else:
             raise AssertionError(st)
+    apply_history(dm, inp.get('hist', []))
     return dm
+
+
+def apply_history(dm, hist):
+    """In-place history on the table that is split / grouped afterwards: probes (split / unique / count, results
+    discarded) and mutations (dm.length, cell / slice / selection / Row assignment).  The source is read AFTER
+    the history, so the oracle judges the final operation against the table as it stands then."""
+    from datamatrix import operations as ops
+    for st in hist:
+        t = st['t']
+        if t == 'probe':
+            col = dm[st['col']]
+            if st['what'] == 'split':
+                list(ops.split(col))
+            elif st['what'] == 'unique':
+                list(col.unique)
+            elif st['what'] == 'count':
+                col.count
+            elif st['what'] == 'group':
+                ops.group(dm, by=[col])
+            else:
+                raise AssertionError(st)
+        elif t == 'length':
+            dm.length = max(0, len(dm) + st['delta'])
+            if 'uid' in dm and len(dm):
+                dm.uid = [int(u) for u in st['uids'][:len(dm)]]       # keep the payload ids unique
+        elif t == 'setcell':
+            dm[st['col']][st['i']] = pyobs.dec(st['v'])
+        elif t == 'setslice':
+            dm[st['col']][st['a']:st['b']] = pyobs.dec(st['v'])
+        elif t == 'setsel':
+            sel = dm[st['by']] == pyobs.dec(st['ref'])
+            dm[st['col']][sel] = pyobs.dec(st['v'])
+        elif t == 'setrow':
+            row = dm[st['i']]
+            row[st['col']] = pyobs.dec(st['v'])
+        else:
+            raise AssertionError(st)
 
 
 class C14:
@@ -122,7 +160,10 @@ class C14:
             'selected (non-contiguous / reordered row ids), shuffled or sorted before the call; operations: '
             'split(col..) without values, split(col, v1..vn) with occurring, absent and repeated values, '
             'group(dm, by); plus every key vector of length 0..4 over a 3-letter alphabet (exhaustive) and a small '
-            'malformed stream (mixed column/value arguments, by-column of another DataMatrix -> ValueError). '
+            'malformed stream (mixed column/value arguments, by-column of another DataMatrix -> ValueError); '
+            'histories on one table: split/unique/count/group first, then dm.length grow/shrink, cell / slice / '
+            'selection / Row assignment (in place), then the operation, judged against the table as read after '
+            'the history. '
             'Observed: every yielded value and every cell of every part / of the grouped table, and a full '
             'before/after snapshot of the source (cells, row ids, column objects). non-trivial = at least two '
             'parts/groups; distinct by (operation, kinds, key cells, order steps, values)')
@@ -168,14 +209,34 @@ class C14:
         rid_l = L.lst(L.N(r) for r in rid)
         names_l = L.lst(L.string(k) for k in inp['keys'])
         tags = list(inp.get('tags', [])) + [op, 'n=%d' % len(dm)] + ['order:' + ('+'.join(s['t'] for s in inp.get('order', [])) or 'none')]
+        if inp.get('hist'):
+            tags.append('hist:' + '+'.join(h['t'] if h['t'] != 'probe' else 'probe-' + h['what'] for h in inp['hist']))
         for k in inp['keys']:
             kk = [c for c in inp['cols'] if c['name'] == k]
             tags.append('key:' + (kk[0]['kind'] if kk else '?'))
         oracle = model = 'true'
         observed = None
         nparts = 0
+        if op in ('split', 'splitv', 'group'):
+            # a well-formed call must not raise: an exception is a finding, not a harness error
+            try:
+                if op == 'split':
+                    res = list(ops.split(*[dm[k] for k in inp['keys']]))
+                elif op == 'splitv':
+                    values = [pyobs.dec(v) for v in inp['values']]
+                    res = list(ops.split(dm[inp['keys'][0]], *values))
+                else:
+                    by = [dm[k] for k in inp['keys']]
+                    if inp.get('by_form') == 'none':
+                        by = None
+                    elif inp.get('by_form') == 'single' and len(by) == 1:
+                        by = by[0]
+                    res = ops.group(dm, by)
+            except Exception as e:      # noqa: BLE001
+                problems.append('%s raised %s: %s' % (op, type(e).__name__, str(e)[:120]))
+                observed = {'raised': pyobs.exn_name(e)}
+                op = 'raised'
         if op == 'split':
-            res = list(ops.split(*[dm[k] for k in inp['keys']]))
             obs = []
             for item in res:
                 if not isinstance(item, tuple) or len(item) != len(inp['keys']) + 1 \
@@ -190,8 +251,6 @@ class C14:
             model = 'split_model %s %s %s %s' % (rid_l, src_l, names_l, obs_l)
             observed = [[[jv(v) for v in vs], view_json(pv)] for vs, pv in obs]
         elif op == 'splitv':
-            values = [pyobs.dec(v) for v in inp['values']]
-            res = list(ops.split(dm[inp['keys'][0]], *values))
             obs = []
             for item in res:
                 if not isinstance(item, DataMatrix):
@@ -205,12 +264,7 @@ class C14:
             model = 'splitv_model %s %s %s %s %s' % (rid_l, src_l, L.string(inp['keys'][0]), vals_l, obs_l)
             observed = [view_json(pv) for pv in obs]
         elif op == 'group':
-            by = [dm[k] for k in inp['keys']]
-            if inp.get('by_form') == 'none':
-                by = None
-            elif inp.get('by_form') == 'single' and len(by) == 1:
-                by = by[0]
-            cm = ops.group(dm, by)
+            cm = res
             bycols, sercols = [], []
             for name, _k, _c in src:
                 if name not in cm:
@@ -256,8 +310,11 @@ class C14:
             observed = list(out) if out[0] == 'exn' else ['ok']
             if out != ('exn', 'ValueError'):
                 problems.append('group by a column of another DataMatrix did not raise ValueError: %r' % (observed,))
+        elif op == 'raised':
+            pass
         else:
             raise AssertionError(op)
+        op = inp['op']
         after = snapshot(dm)
         if after != before:
             problems.append('the source DataMatrix was modified by %s' % op)
@@ -266,7 +323,8 @@ class C14:
             'pyfail': '; '.join(problems[:3]) if problems else None,
             'oracle': oracle, 'model': model,
             'nontrivial': nparts >= 2,
-            'sig': json.dumps([op, inp['keys'], inp['cols'], inp.get('order'), inp.get('values'), inp.get('by_form')],
+            'sig': json.dumps([op, inp['keys'], inp['cols'], inp.get('order'), inp.get('values'), inp.get('by_form'),
+                               inp.get('hist')],
                               sort_keys=True),
             'tags': tags,
         }
@@ -386,6 +444,66 @@ class C14:
                 inp['by_form'] = 'list'
         return inp
 
+    def _hist_case(self, rng, op, maxn):
+        """split / unique / count first, then mutate the same table in place, then the operation"""
+        inp = self._case(rng, op, maxn)
+        if op == 'group':       # grouped columns must stay numeric after dm.length / assignments
+            inp['cols'] = [c for c in inp['cols'] if c['name'] in inp['keys'] or c['name'] == 'uid' or c['kind'] != 'KMixed']
+        inp['tags'] = ['history']
+        n = len(inp['cols'][0]['cells'])
+        for st in inp['order']:
+            if st['t'] == 'select':
+                n = len(st['keep'])
+        keys = inp['keys']
+        targets = [c for c in inp['cols'] if c['name'] != 'uid']
+        extra = {'KMixed': ['zz', 5, None, 'a', ''], 'KFloat': [1.0, NAN, 7.5, 0.0], 'KInt': [1, 9, 0]}
+
+        def value_for(col):
+            pool = [pyobs.dec(x) for x in col['cells']] + extra[col['kind']]
+            return pyobs.enc(rng.choice(pool))
+
+        def probe():
+            col = rng.choice(keys) if keys else 'uid'
+            return {'t': 'probe', 'what': rng.choice(['split', 'split', 'unique', 'count', 'group']), 'col': col}
+
+        def grow():
+            delta = rng.choice([1, 2, 3])
+            return {'t': 'length', 'delta': delta, 'uids': rng.sample(range(100, 200), n + delta + 8)}
+
+        hist = [probe()]
+        if rng.random() < 0.45 or not targets:
+            st = grow()
+            n += st['delta']
+            hist.append(st)
+        else:
+            for _ in range(rng.randint(1, 3)):
+                kind = rng.choice(['length', 'length', 'setcell', 'setslice', 'setsel', 'setrow', 'probe'])
+                if kind == 'probe':
+                    hist.append(probe())
+                elif kind == 'length' or n == 0:
+                    delta = rng.choice([1, 2, 3, -1, -2])
+                    delta = max(delta, -n)
+                    hist.append({'t': 'length', 'delta': delta, 'uids': rng.sample(range(100, 200), n + max(delta, 0) + 8)})
+                    n += delta
+                else:
+                    col = rng.choice(targets)
+                    if kind == 'setcell':
+                        hist.append({'t': 'setcell', 'col': col['name'], 'i': rng.randrange(n), 'v': value_for(col)})
+                    elif kind == 'setslice':
+                        a = rng.randint(0, n)
+                        hist.append({'t': 'setslice', 'col': col['name'], 'a': a, 'b': rng.randint(a, n), 'v': value_for(col)})
+                    elif kind == 'setrow':
+                        hist.append({'t': 'setrow', 'col': col['name'], 'i': rng.randrange(n), 'v': value_for(col)})
+                    else:
+                        by = rng.choice(targets)
+                        hist.append({'t': 'setsel', 'col': col['name'], 'by': by['name'], 'ref': value_for(by), 'v': value_for(col)})
+        inp['hist'] = hist
+        if op == 'splitv':
+            # values may also name the default cell of freshly added rows
+            kind = [c for c in inp['cols'] if c['name'] == keys[0]][0]['kind']
+            inp['values'] = inp['values'] + [pyobs.enc({'KMixed': '', 'KFloat': NAN, 'KInt': 0}[kind])]
+        return inp
+
     def generate(self, rng, tier, scale=1.0):
         cases = []
         quick = tier == 'quick'
@@ -415,6 +533,10 @@ class C14:
         for _ in range(reps):
             for op in ('split', 'splitv', 'group'):
                 cases.append(self.rerun(self._case(rng, op, maxn)))
+        # histories: probe (split / unique / count), mutate the same table in place, then the operation
+        for _ in range(int((110 if quick else 1200) * scale)):
+            for op in ('split', 'split', 'splitv', 'group'):
+                cases.append(self.rerun(self._hist_case(rng, op, 8 if quick else 12)))
         # malformed stream
         for _ in range(int((12 if quick else 100) * scale)):
             inp = self._case(rng, 'split', 6)
@@ -430,6 +552,11 @@ class C14:
     def shrink_candidates(self, inp):
         cols = inp['cols']
         n = len(cols[0]['cells']) if cols else 0
+        # drop history steps
+        for i in range(len(inp.get('hist', []))):
+            c = dict(inp)
+            c['hist'] = inp['hist'][:i] + inp['hist'][i + 1:]
+            yield c
         # drop order steps
         for i in range(len(inp.get('order', []))):
             c = dict(inp)
@@ -470,7 +597,8 @@ class C14:
 
     def key(self, case):
         inp = case['input']
-        return '%s keys=%s rows=%d' % (inp['op'], ','.join(
+        hist = ''.join(' ' + (h['t'] if h['t'] != 'probe' else 'probe-' + h['what']) for h in inp.get('hist', []))
+        return '%s%s keys=%s rows=%d' % (inp['op'], (' after' + hist) if hist else '', ','.join(
             '%s:%s' % (c['kind'], json.dumps([x.get('v') for x in c['cells']], separators=(',', ':')))
             for c in inp['cols'] if c['name'] in inp['keys']), len(inp['cols'][0]['cells']) if inp['cols'] else 0)
 
